@@ -192,6 +192,10 @@ func (v *Verifier) enumerateCases(fr *FuncRef, fc *FuncContract) []caseSpec {
 }
 
 type Verifier struct {
+	cfgLabel  string   // non-empty when this run analyses an alternative build configuration (C17)
+	altCfgs   []string // alternative configurations that were analysed as well
+	stdConf   map[string]interface{}
+	replayTag string // sub-directory of build/replay used by this run (one per property, so concurrent checks do not collide)
 	prog      *Program
 	specs     *Specs
 	lastExec  *Exec
